@@ -439,6 +439,26 @@ Spans of submodels differ:
 
             return check_values
 
+        # Error if `offset` points outside the current linker span
+        if offset:
+            t_check = t
+            if t_check < 0:
+                t_check += len(self.span)
+
+            if t_check + offset < 0:
+                raise IndexError(
+                    f'`offset` argument ({offset}) for position `t` ({t}) '
+                    f'implies a period before the span of the current linker instance: '
+                    f'{offset} + {t} -> position {offset + t_check} < 0'
+                )
+
+            if t_check + offset >= len(self.span):
+                raise IndexError(
+                    f'`offset` argument ({offset}) for position `t` ({t}) '
+                    f'implies a period beyond the span of the current linker instance: '
+                    f'{offset} + {t} -> position {offset + t_check} >= {len(self.span)} periods in span'
+                )
+
         status = SolutionStatus.UNSOLVED.value
         current_values = get_check_values()
 
@@ -451,6 +471,19 @@ Spans of submodels differ:
                 raise KeyError(f"'{name}' not found in list of submodels") from e
 
             submodel.iterations[t] = 0
+
+        # Optionally copy initial values from another period (for the linker
+        # and each of the submodels to solve)
+        if offset:
+            for name in self.endogenous:
+                self.__dict__['_' + name][t] = self.__dict__['_' + name][t + offset]
+
+            for name in submodels:
+                submodel = self.__dict__['submodels'][name]
+                for variable in submodel.endogenous:
+                    submodel.__dict__['_' + variable][t] = submodel.__dict__['_' + variable][t + offset]
+
+            current_values = get_check_values()
 
         if _verif.ON:
             _verif.emit('l_seeded', self, selected=[repr(x) for x in submodels],
